@@ -852,13 +852,15 @@ pub fn run(args: &Args, sink: &mut Sink) {
             let mut r = lr.fork();
             nlt += 1;
             sink.case(&format!("LT{nlt}"));
-            let mut w = World::new(sink, 16);
+            // a commit is one message whatever its size: also at capacities a split batch would overflow
+            let cap = [16usize, 1, 2][(k % 3) as usize];
+            let mut w = World::new(sink, cap);
             let init: Vec<V> = (1..=r.below(4) as V).collect();
             if !init.is_empty() { w.direct(sink, &Op::Append(init.clone())); }
             let p = w.subscribe(sink, false);
             let b = w.subscribe(sink, true);
             w.txn_begin(sink);
-            let n = 17 + r.below(24);
+            let n = if cap == 16 { 17 + r.below(24) } else { 30 + r.below(45) };
             for _ in 0..n {
                 let len = w.len();
                 // keep the vector small: mostly sets and push/pop pairs
